@@ -219,6 +219,49 @@ pub fn run(ch: &mut Ch, verbose: bool) -> Outcome {
     // is taken up, intercept_response when the application is done (later, in
     // split-phase).  Touches in time order; the snapshot belongs to the touch
     // that ends the exchange.
+    // which keys hold block-transfer state (an upload buffer in progress or
+    // an unfinished cached response), as far as the replies tell: retention is
+    // only demanded for those - a key that was merely used by a plain
+    // exchange has no block-transfer state to retain
+    // per exchange: what it does to "this key holds block-transfer state"
+    // (Some(true) sets it, Some(false) clears it, None leaves it as it is)
+    let mut state_after: BTreeMap<usize, (MKey, Option<bool>)> = BTreeMap::new();
+    for a in log.iter() {
+        if !a.is_request || a.ireq.is_none() {
+            continue;
+        }
+        let Some(k) = mkey(a) else { continue };
+        let mut tr: Option<bool> = None;
+        if let Some((_, more, _)) = a.block1 {
+            // a non-final block that was accepted leaves a buffer; the final one takes it
+            if more && a.ireq == Some(HOut::Handled) {
+                tr = Some(true);
+            } else if !more {
+                tr = Some(false);
+            }
+        }
+        if let Some(rb) = a.reply.as_ref() {
+            if let Some(f) = crate::refparse::accept(rb) {
+                if let Some((_, more, _)) = f.block(23) {
+                    if a.app.is_some() {
+                        // a fresh response is cached only if blocks remain
+                        if more {
+                            tr = Some(true);
+                        }
+                    } else {
+                        // a block out of the cache: released with the final one
+                        tr = Some(more || a.block1.map_or(false, |b| b.1));
+                    }
+                }
+            }
+        }
+        state_after.insert(a.seq, (k, tr));
+    }
+    let mut stateful: BTreeMap<MKey, bool> = BTreeMap::new();
+    // keys whose upload buffer is handed over when the datagram is taken up
+    // (final Block1 block): no state left from then on, also while the
+    // exchange is still at the application
+    let mut blank_at_begin: std::collections::BTreeSet<usize> = std::collections::BTreeSet::new();
     let mut touches: Vec<(u64, usize, MKey, Option<usize>)> = Vec::new();
     for a in log.iter() {
         if !a.is_request || a.ireq.is_none() {
@@ -226,6 +269,9 @@ pub fn run(ch: &mut Ch, verbose: bool) -> Outcome {
         }
         let Some(k) = mkey(a) else { continue };
         if a.app.is_some() && a.time_done > a.time {
+            if a.block1.map_or(false, |b| !b.1) {
+                blank_at_begin.insert(a.tick_begin as usize);
+            }
             touches.push((a.time, a.tick_begin as usize, k.clone(), None));
             touches.push((a.time_done, a.tick_done as usize, k, Some(a.seq)));
             stats.hit("probe.c20.split-phase-exchange");
@@ -235,9 +281,23 @@ pub fn run(ch: &mut Ch, verbose: bool) -> Outcome {
     }
     // the order in which the server made the calls
     touches.sort_by_key(|x| x.1);
-    for (now, _ord, k, snap) in touches.iter() {
+    for (now, ord, k, snap) in touches.iter() {
         let now = *now;
+        // a key that comes back after its expiry (or at exactly the expiry:
+        // either way) starts without block-transfer state
+        match last.get(k) {
+            Some(t) if now - *t < e => {}
+            _ => {
+                stateful.insert(k.clone(), false);
+            }
+        }
         last.insert(k.clone(), now);
+        if blank_at_begin.contains(ord) {
+            stateful.insert(k.clone(), false);
+        }
+        if let Some((sk, Some(st))) = snap.and_then(|sq| state_after.get(&sq)) {
+            stateful.insert(sk.clone(), *st);
+        }
         // compare with what the handler physically holds after this call
         if let Some(held) = snap.and_then(|sq| held_by_seq.get(&sq)) {
             {
@@ -246,7 +306,7 @@ pub fn run(ch: &mut Ch, verbose: bool) -> Outcome {
                 for (mk, t) in &last {
                     let idle = now - t;
                     let is_held = held_set.contains(mk);
-                    if idle < e && !is_held {
+                    if idle < e && !is_held && stateful.get(mk).copied().unwrap_or(false) {
                         viol.push(Violation::new(
                             "C20",
                             "retained",
